@@ -2257,6 +2257,54 @@ def rule_c18_quantiles(ctx, prog, rule="R13"):
         if ok and lost and sinks:
             ok = False
             flow_detail = "the position computed by %s is not part of what is added to the searched index vector" % ", ".join(lost)
+        # … under the right polarity: a position is looked up whenever its needs_* predicate holds, so it must be collected at
+        # least then – the collection of X_index may be unconditional or on the true side of needs_X, never on a false side and
+        # never on a side decided by the other predicate alone
+        from .rules_unsafe import branch_dominates
+        pol_detail = None
+        lgroup = [c] + [x for x in prog.bodies.values() if x.is_closure and x.key.startswith(c.key + "::")]
+        for side, grp in (("collected", cgroup), ("looked up", lgroup)):
+            for g in grp:
+                needs_sw = []
+                for bb_ in g.live_blocks():
+                    t_ = g.term(bb_)
+                    if t_["k"] != "switch" or t_.get("discr_ty") != "bool":
+                        continue
+                    de_ = ds(g.switch_discr_expr(bb_))
+                    flip = False
+                    while isinstance(de_, tuple) and ((de_[0] == "unop" and de_[1] == "Not") or (de_[0] == "call" and de_[1] == "not" and len(de_[3]) == 1)):
+                        de_ = ds(de_[2] if de_[0] == "unop" else de_[3][0])
+                        flip = not flip
+                    if isinstance(de_, tuple) and de_[0] == "call" and de_[1] in ("needs_lower", "needs_higher"):
+                        f_ = [tgt for v_, tgt in t_["arms"] if v_ == 0]
+                        if f_:
+                            tside, fside = (t_["otherwise"], f_[0]) if not flip else (f_[0], t_["otherwise"])
+                            needs_sw.append((bb_, de_[1], tside, fside))
+                if not needs_sw:
+                    continue
+                for bb_, t_ in g.calls():
+                    nm_ = callee_name(t_)
+                    which = set()
+                    if nm_ in ("lower_index", "higher_index"):
+                        which.add(nm_)
+                    elif nm_ in ("push", "extend", "insert", "append", "extend_from_slice", "push_back", "index", "get"):
+                        for a_ in g.call_arg_exprs(bb_)[1:]:
+                            for x in walk(a_):
+                                if isinstance(x, tuple) and x[0] == "call" and x[1] in ("lower_index", "higher_index"):
+                                    which.add(x[1])
+                    for w_ in which:
+                        want = "needs_lower" if w_ == "lower_index" else "needs_higher"
+                        for (sb, pn, tside, fside) in needs_sw:
+                            if sb == bb_:
+                                continue
+                            if branch_dominates(g, sb, fside, bb_) and not branch_dominates(g, sb, tside, bb_):
+                                pol_detail = "%s is %s only when %s(q, len) is false" % (w_, side, pn)
+                            elif pn != want and branch_dominates(g, sb, tside, bb_) and not any(
+                                    p2 == want and branch_dominates(g, s2, t2, bb_) for (s2, p2, t2, _f2) in needs_sw):
+                                pol_detail = "%s is %s under %s instead of %s" % (w_, side, pn, want)
+        if ok and pol_detail:
+            ok = False
+            flow_detail = pol_detail
         if not ok and not s_lookup and len(s_collect) == 4:
             pv = lane_uses_position_vector(prog, inner, c)
             if pv is not None and pv[0]:
